@@ -14,7 +14,7 @@ func init() {
 	register("C06",
 		"Structural necessary conditions of C06 decided from /repo's SSA: (algebra) the Filter methods of the union/intersection/inverse/all/none helpers and Include/Exclude.Combine followed by Filter are interpreted over all assignments of the opaque atoms `f matches` and must equal a∨b, a∧b, ¬a, true, false, f | g∨f, ¬f | g∧¬f; Inverted swaps the two combiners — from these identities the last-matching-rule fold follows by induction on the option list; (fold) at every site that extends a filter the first Combine argument is the current value of the very field the result is stored to; (default) Finish turns a nil top-level filter into all-references iff its parameter is true, and the only caller passes len(flags.Args())==0; (flags) the include/exclude/…-regexp and the five --X/--no-X pairs are registered with the stated polarity, pattern and regexp bit; (prefix) the prefix filter's truth table is HasPrefix ∧ (ends-in-'/' ∨ equal length ∨ next byte '/') with the index evaluated only when in bounds; (anchor) a user pattern is wrapped in a group before being anchored; (flex) /…/, @…, else-prefix dispatch with in-bounds slicing. Not decided: regexp matching itself, pflag's in-order Set calls.",
 		[]string{"spf13/pflag calls Value.Set in command-line order", "regexp semantics", "induction on the option list (on paper, DESIGN.md C06)"},
-		ruleC06Algebra, ruleC06Fold, ruleC06Default, ruleC06Flags, ruleC06Prefix, ruleC06Anchor, ruleC06Flex)
+		ruleC06Algebra, ruleC06Fold, ruleC06Default, ruleC06Flags, ruleC06Prefix, ruleC06Anchor, ruleC06Flex, ruleC06RefGroup)
 }
 
 // combineCalls lists every call of a Combiner's Combine method.
